@@ -3,10 +3,19 @@ import Faithful.Lib.Bucketteer
 /-!
 Property C05 — the signature-existence index (bucketteer) has no false negatives.
 
-All statements are about the definitions the driver `fdrv C05` executes (`BK.put`, `BK.writerHas`, `BK.sealA`,
-`BK.hasA`, `BK.encode`, `BK.openB`, `BK.hasB`), for EVERY list of signatures (any multiset, any distribution over the
-65 536 prefixes), EVERY hash function `h` (so in particular xxhash64), and BOTH formats (`fmt = .v2` current,
-`fmt = .v1` deprecated: prefixes that were never `Put` have no offset-table entry there).
+All statements are about the definitions the driver `fdrv-C05` executes (`BK.put`, `BK.writerHas`, `BK.sealA`,
+`BK.hasA`, `BK.encode`, `BK.openB`, `BK.hasB`), for EVERY list of signatures (any multiset, any distribution over
+the 65 536 prefixes, no size bound), EVERY hash function `h` (so in particular xxhash64), and BOTH formats
+(`fmt = .v2` current, `fmt = .v1` deprecated: there a prefix that was never `Put` has no offset-table entry and
+the table is ordered by the big-endian reading of the prefix).
+
+* abstract level (no hypothesis at all): `seal_has`, `has_only_if`, `writer_agrees`;
+* byte level: `has_bytes_agree` — `NewReader`/`Reader.Has` as the Go code does it (header size, magic, version,
+  metadata, offset table, `uint32` count, `numHashes*8` in `uint32`, eytzinger search over 8-byte LE hashes) on
+  the very bytes `Seal` writes opens without error and answers exactly what the abstract reader answers; its
+  size hypotheses are explicit: 64-bit hash values, fewer than 2^29 distinct hashes per bucket, metadata the
+  format can hold and shorter than 2^31 bytes (the header length is a `uint32`);
+  `seal_has_bytes` / `has_only_if_bytes` are the property itself at the byte level.
 -/
 namespace C05
 open BK
@@ -29,5 +38,122 @@ theorem writer_agrees (fmt : Fmt) (h : Sig → Nat) (sigs : List Sig) (s : Sig) 
     writerHas h (putAll h sigs) s = hasA (sealA fmt (putAll h sigs)) (prefixOf s) (h s) := by
   rw [Bool.eq_iff_iff, hasA_sealA_iff fmt _ _ _ (by rw [size_putAll]; exact prefixOf_lt s)]
   simp [writerHas]
+
+/-- The two formats answer identically (they differ only in the byte layout and in omitting empty buckets). -/
+theorem v1_same (h : Sig → Nat) (sigs : List Sig) (s : Sig) :
+    hasA (sealA .v1 (putAll h sigs)) (prefixOf s) (h s) = hasA (sealA .v2 (putAll h sigs)) (prefixOf s) (h s) := by
+  rw [← writer_agrees .v1, ← writer_agrees .v2]
+
+/-- The eytzinger search is run with fuel `numHashes + 1`; the Go loop has no bound.  More fuel never changes
+    the answer, so the fuel is sufficient. -/
+theorem search_fuel_sufficient (lay : Lay) (x extra : Nat) :
+    Eytz.search lay x (lay.size + 1 + extra) 0 = Eytz.search lay x (lay.size + 1) 0 :=
+  search_fuel_enough lay x (lay.size + 1) 0 (by omega) extra
+
+/-- Byte level: on the file `Seal` writes, `NewReader` succeeds and `Reader.Has` (over the bytes) returns, without
+    error, the verdict of the abstract reader — for every signature queried. -/
+theorem has_bytes_agree (fmt : Fmt) (h : Sig → Nat) (m : MetaKVs) (sigs : List Sig)
+    (h64 : ∀ s, h s < 2^64)
+    (hm : metaOk fmt m) (hmlen : (metaBytes fmt m).length < 2^31)
+    (hsmall : ∀ p, (cleanSet ((putAll h sigs).getD p [])).length < 2^29) :
+    ∃ r, openB fmt (encode fmt m (sealA fmt (putAll h sigs))).toArray = some r ∧
+      ∀ s, hasB (encode fmt m (sealA fmt (putAll h sigs))).toArray r (prefixOf s) (h s)
+            = if hasA (sealA fmt (putAll h sigs)) (prefixOf s) (h s) then Res.yes else Res.no := by
+  have hok : SealedOk (sealA fmt (putAll h sigs)) := by
+    apply sealedOk_sealA fmt _ _ hsmall
+    intro p x hx
+    by_cases hp : p < numPrefixes
+    · obtain ⟨s, _, _, rfl⟩ := (mem_putAll h sigs p x hp).1 hx
+      exact h64 s
+    · have : (putAll h sigs).getD p [] = [] := by simp [Array.getD, size_putAll, hp]
+      rw [this] at hx; simp at hx
+  obtain ⟨hhdr, hlen⟩ := sizes_ok fmt m _ hok hmlen
+  exact ⟨_, openB_encode fmt m _ hm hhdr, fun s => hasB_encode fmt m _ hok hlen _ _ (prefixOf_lt s)⟩
+
+/-- No false negative, at the byte level. -/
+theorem seal_has_bytes (fmt : Fmt) (h : Sig → Nat) (m : MetaKVs) (sigs : List Sig)
+    (h64 : ∀ s, h s < 2^64) (hm : metaOk fmt m) (hmlen : (metaBytes fmt m).length < 2^31)
+    (hsmall : ∀ p, (cleanSet ((putAll h sigs).getD p [])).length < 2^29) :
+    ∃ r, openB fmt (encode fmt m (sealA fmt (putAll h sigs))).toArray = some r ∧
+      ∀ s ∈ sigs, hasB (encode fmt m (sealA fmt (putAll h sigs))).toArray r (prefixOf s) (h s) = Res.yes := by
+  obtain ⟨r, hr, hall⟩ := has_bytes_agree fmt h m sigs h64 hm hmlen hsmall
+  refine ⟨r, hr, fun s hs => ?_⟩
+  rw [hall s, seal_has fmt h sigs s hs]; rfl
+
+/-- A positive answer of the byte-level reader implies a hash+prefix match with an added signature. -/
+theorem has_only_if_bytes (fmt : Fmt) (h : Sig → Nat) (m : MetaKVs) (sigs : List Sig)
+    (h64 : ∀ s, h s < 2^64) (hm : metaOk fmt m) (hmlen : (metaBytes fmt m).length < 2^31)
+    (hsmall : ∀ p, (cleanSet ((putAll h sigs).getD p [])).length < 2^29) :
+    ∃ r, openB fmt (encode fmt m (sealA fmt (putAll h sigs))).toArray = some r ∧
+      ∀ s, hasB (encode fmt m (sealA fmt (putAll h sigs))).toArray r (prefixOf s) (h s) = Res.yes →
+        ∃ s' ∈ sigs, prefixOf s' = prefixOf s ∧ h s' = h s := by
+  obtain ⟨r, hr, hall⟩ := has_bytes_agree fmt h m sigs h64 hm hmlen hsmall
+  refine ⟨r, hr, fun s hyes => ?_⟩
+  rw [hall s] at hyes
+  apply has_only_if fmt h sigs s
+  cases hb : hasA (sealA fmt (putAll h sigs)) (prefixOf s) (h s) with
+  | true => rfl
+  | false => rw [hb] at hyes; simp at hyes
+
+/-- The per-bucket size hypothesis holds whenever fewer than 2^29 signatures were added in total. -/
+theorem small_of_length (h : Sig → Nat) (sigs : List Sig) (hn : sigs.length < 2^29) :
+    ∀ p, (cleanSet ((putAll h sigs).getD p [])).length < 2^29 := by
+  intro p
+  have h1 := cleanSet_length_le ((putAll h sigs).getD p [])
+  have h2 := bucket_length_le h sigs emptyW p
+  have h3 : (emptyW.getD p []).length = 0 := by
+    by_cases hp : p < numPrefixes <;> simp [emptyW, Array.getD, hp]
+  unfold putAll at h1 ⊢
+  omega
+
+/-! ### non-vacuity: the hypotheses are satisfiable and the reader is not constant -/
+
+/-- a toy 64-bit hash: the third byte -/
+def toyHash (s : Sig) : Nat := (s.getD 2 0).toNat
+theorem toyHash_lt (s : Sig) : toyHash s < 2^64 := by
+  have := (s.getD 2 0).toNat_lt; unfold toyHash; omega
+
+-- seal_has: a member (here added twice, next to another prefix) is found, in both formats
+example : hasA (sealA .v1 (putAll toyHash [[1, 2, 3], [9, 9, 9], [1, 2, 3]])) (prefixOf [1, 2, 3]) (toyHash [1, 2, 3]) = true :=
+  seal_has .v1 toyHash _ _ (by simp)
+example : hasA (sealA .v2 (putAll toyHash [[1, 2, 3], [9, 9, 9], [1, 2, 3]])) (prefixOf [1, 2, 3]) (toyHash [1, 2, 3]) = true :=
+  seal_has .v2 toyHash _ _ (by simp)
+
+-- has_only_if: its hypothesis is satisfiable (by seal_has) ...
+example : ∃ s' ∈ [[1, 2, 3], [9, 9, 9]], prefixOf s' = prefixOf [1, 2, 3] ∧ toyHash s' = toyHash [1, 2, 3] :=
+  has_only_if .v2 toyHash _ _ (seal_has .v2 toyHash _ _ (by simp))
+
+-- ... and it makes the reader answer `false` for a non-member: same prefix, other hash; and same hash, other prefix
+example (fmt : Fmt) : hasA (sealA fmt (putAll toyHash [[1, 2, 3], [9, 9, 9]])) (prefixOf [1, 2, 4]) (toyHash [1, 2, 4]) = false := by
+  rw [Bool.eq_false_iff]
+  intro ht
+  obtain ⟨s', hs', hp, hh⟩ := has_only_if fmt toyHash _ _ ht
+  simp only [List.mem_cons, List.mem_nil_iff, or_false] at hs'
+  rcases hs' with rfl | rfl
+  · exact absurd hh (by decide)
+  · exact absurd hp (by decide)
+example (fmt : Fmt) : hasA (sealA fmt (putAll toyHash [[1, 2, 3], [9, 9, 9]])) (prefixOf [2, 1, 3]) (toyHash [2, 1, 3]) = false := by
+  rw [Bool.eq_false_iff]
+  intro ht
+  obtain ⟨s', hs', hp, hh⟩ := has_only_if fmt toyHash _ _ ht
+  simp only [List.mem_cons, List.mem_nil_iff, or_false] at hs'
+  rcases hs' with rfl | rfl
+  · exact absurd hp (by decide)
+  · exact absurd hp (by decide)
+
+-- writer_agrees: both sides are `true` for a member
+example : writerHas toyHash (putAll toyHash [[1, 2, 3]]) [1, 2, 3] = true := by
+  rw [writer_agrees .v2]; exact seal_has .v2 toyHash _ _ (by simp)
+
+-- has_bytes_agree / seal_has_bytes: all size hypotheses are satisfiable together (both formats, with metadata)
+example (fmt : Fmt) :
+    ∃ r, openB fmt (encode fmt [([1], [2, 3])] (sealA fmt (putAll toyHash [[1, 2, 3], [9, 9, 9], [1, 2, 7]]))).toArray = some r ∧
+      ∀ s ∈ [[1, 2, 3], [9, 9, 9], [1, 2, 7]],
+        hasB (encode fmt [([1], [2, 3])] (sealA fmt (putAll toyHash [[1, 2, 3], [9, 9, 9], [1, 2, 7]]))).toArray r
+          (prefixOf s) (toyHash s) = Res.yes :=
+  seal_has_bytes fmt toyHash _ _ toyHash_lt
+    (by cases fmt <;> simp [metaOk])
+    (by cases fmt <;> decide)
+    (small_of_length toyHash _ (by decide))
 
 end C05
